@@ -316,7 +316,7 @@ def tidal_potential(
         )
 
     # Prepare static coeff
-    static_coeff = (-1. / 3.) - (1. / 2.) * e2 + (1. / 2.) * ob
+    static_coeff = (-1. / 3.) - (1. / 2.) * e2 + (1. / 2.) * ob2
     static_term = static_coeff * p_20
     static_term_partial_theta = static_coeff * dp_20_dtheta
     static_term_partial2_theta2 = static_coeff * dp2_20_dtheta2
